@@ -171,3 +171,19 @@ def run(F, R, tier, cfg):
     R.ob("WMC-cancel", "PathSetTask::drop cancels the token on every path", okd, True)
     if not okd:
         R.violation("WMC-cancel", "PathSetTask::drop", "dropping the task entry no longer cancels the worker", None)
+
+    # ---- no forced termination of the worker: its exit block (clear in-progress flags, notify waiters, publish the
+    # error, clear the active path) runs only when the coroutine returns; JoinHandle::abort kills it at its next await
+    ABORT = lambda n: n in ("tokio::runtime::task::join::JoinHandle::<T>::abort", "tokio::runtime::task::abort::AbortHandle::abort",
+                            "tokio::task::join_set::JoinSet::<T>::abort_all", "tokio::task::join_set::JoinSet::<T>::shutdown")
+    # positive control: the matcher must recognise the abort calls the workspace is known to contain elsewhere
+    # (underlay discovery / SNAP underlay socket task handles), otherwise this zero-count rule is vacuous
+    ctl = T.call_sites(F, ABORT, crates=["scion_stack"])
+    R.floor("WMC-no-abort-control", len([1 for (p, c) in ctl if not p.startswith(("scion_stack::path::manager", "<scion_stack::path::manager"))]), 2,
+            "JoinHandle::abort calls elsewhere in scion-stack (matcher positive control)")
+    bad = [(p, c) for (p, c) in ctl if p.startswith(("scion_stack::path::manager", "<scion_stack::path::manager"))]
+    R.ob("WMC-no-abort", "no JoinHandle/AbortHandle::abort on a path-set worker anywhere in path::manager", not bad, True)
+    for (p, c) in bad:
+        R.violation("WMC-no-abort", p + "/" + short(c.decl),
+                    "a path-set worker is aborted (%s): its exit block never runs, so waiters are not woken and handles report no error" % short(c.decl), c.span.loc)
+
